@@ -72,20 +72,19 @@ L_HSeqs2  == SeqsUpTo(HandlerKinds, 2)
 L_HSeqs3  == SeqsUpTo(HandlerKinds, 3)
 L_UpRegs  == {"none", "b"}
 
-\* ---- C: 4 components, 5 waiters (thorough)
+\* ---- C: 4 components, 4 waiters (thorough), rendezvous only
 C_Comps   == {"a", "b", "c", "d"}
 C_Sources == {"a", "b", "d"}
-C_Waiters == {"w1", "w2", "w3", "w4", "s1"}
+C_Waiters == {"w1", "w2", "w4", "s1"}
 C_Kind    == [w \in C_Waiters |-> IF w = "s1" THEN "sink" ELSE "cb"]
 C_Script  == [w \in C_Waiters |->
-                CASE w = "w1" -> SNone
+                CASE w = "w1" -> SRegThrow("c")
                   [] w = "w2" -> SReg("d")
-                  [] w = "w3" -> SRegThrow("c")
                   [] w = "w4" -> SCwr("w1", {"a", "d"})
                   [] w = "s1" -> SReg("b")]
 C_Handles == [w \in C_Waiters |-> IF w = "s1" THEN {"a", "d"} ELSE {}]
-C_DepSets == SubsetsUpTo(C_Comps, 2)
-C_HSeqs   == {<<>>, <<"hold", "relprev">>}
+C_DepSets == {{}, {"a"}, {"b"}, {"d"}, {"a", "b"}, {"c", "d"}}
+C_HSeqs   == {<<>>}
 C_UpRegs  == {"none", "c"}
 
 \* ---- T: 5 components, 5 waiters: simulation and trace validation
